@@ -51,6 +51,10 @@ class Ty:
             return self.name
         if k in CUSTOM:
             return CUSTOM[k]
+        if k == "time":
+            return "time.Time"
+        if k == "nulltime":
+            return "null.Time"
         return {"nullint": "null.Int", "nullbool": "null.Bool", "nullfloat": "null.Float", "nullstring": "null.String"}[k]
 
     def id(self):
@@ -243,6 +247,8 @@ def natural(t, omit=False):
         s = Sd("bytes")
     elif k == "customT":
         s = Sd("string")
+    elif k in ("time", "nulltime"):
+        s = U(Sd("string"))
     elif k == "nullint":
         s = U(Sd("long"))
     elif k == "nullbool":
@@ -327,6 +333,10 @@ class Gen:
                     continue
                 nz = f.omitempty() and f.ty.kind == "map"
                 body.append("%s(&p.%s, tag+\".%s\")" % (self.fill(f.ty, nested, nz, wide), f.name, f.name))
+        elif k == "time":
+            body.append("if verifChoice(tag+\".zero\", 2) == 1 {\n\t\t*p = time.Time{}\n\t\treturn\n\t}\n\tverifFillTime(p, tag)")
+        elif k == "nulltime":
+            body.append("p.Valid = verifNondetBool(tag + \".valid\")\n\tverifFillTime(&p.Time, tag)")
         elif k == "customS":
             body.append("p.A = verifNondetI32(tag + \".A\")\n\tp.B = verifNondetI32(tag + \".B\")")
         elif k == "customI":
@@ -372,12 +382,16 @@ class Gen:
             X = sd.branches[xi]
             null = "refUnion(%d, refNull())" % ni
             if k == "ptr":
-                if t.elem.kind == "ptr" or t.elem.kind in NULLS:
+                if t.elem.kind == "ptr" or t.elem.kind in NULLS or t.elem.kind in ("time", "nulltime"):
                     inner = self.datum_under(sd, t.elem)
                     b.append("if *p == nil {\n\t\treturn %s\n\t}\n\treturn %s(*p)" % (null, inner))
                 else:
                     inner = self.datum_under(X, t.elem)
                     b.append("if *p == nil {\n\t\treturn %s\n\t}\n\treturn refUnion(%d, %s(*p))" % (null, xi, inner))
+            elif k == "time":
+                b.append("if p.IsZero() {\n\t\treturn %s\n\t}\n\treturn refUnion(%d, refStr(verifTimeText(*p)))" % (null, xi))
+            elif k == "nulltime":
+                b.append("if !p.Valid {\n\t\treturn %s\n\t}\n\treturn refUnion(%d, refStr(verifTimeText(p.Time)))" % (null, xi))
             elif k in NULLS:
                 base = {"nullint": ("int64", "Int64"), "nullbool": ("bool", "Bool"), "nullfloat": ("float64", "Float64"), "nullstring": ("string", "String")}[k]
                 inner = self.datum_under(X, B(base[0]))
@@ -476,6 +490,10 @@ class Gen:
             elif omit and self.iszero(wt, "*in"):
                 b.append("if %s {\n\t\treturn *out == nil\n\t}" % self.iszero(wt, "*in"))
             b.append("if *out == nil {\n\t\treturn false\n\t}\n\treturn %s(in, *out)" % er)
+        elif wk == "time" and tk == "time":
+            b.append("if in.IsZero() {\n\t\treturn out.IsZero()\n\t}\n\treturn verifTimeEq(in, out)")
+        elif wk == "nulltime" and tk == "nulltime":
+            b.append("if !in.Valid {\n\t\treturn !out.Valid\n\t}\n\treturn verifAnd(out.Valid, verifTimeEq(&in.Time, &out.Time))")
         elif wk == "bool" and tk == "bool":
             b.append("return *in == *out")
         elif wk in INTS and tk in INTS:
@@ -557,8 +575,10 @@ class Gen:
             return "len(*%s) == 0" % e
         if k == "ptr":
             return "*%s == nil" % e
-        if k in NULLS:
+        if k in NULLS or k == "nulltime":
             return "!%s.Valid" % e
+        if k == "time":
+            return "%s.IsZero()" % e
         if k == "struct":
             return "true"
         raise ValueError(k)
@@ -996,6 +1016,12 @@ def catalogue_null(g):
         add("nullomit", "verifO_Null%s" % K, [Field("A", B(k), 'json:"A,omitempty"'), Z()])
         add("nullslice", "verifS_Null%s" % K, [Field("A", S(B(k))), Z()])
         add("nullmap", "verifM_Null%s" % K, [Field("A", M(B(k))), Z()])
+    for k, K in (("time", "Time"), ("nulltime", "NullTime")):
+        add("timeleaf", "verifL_%s" % K, [Field("A", B(k)), Z()])
+        add("timeptr", "verifP_%s" % K, [Field("A", P(B(k))), Z()])
+        add("timeomit", "verifO_%s" % K, [Field("A", B(k), 'json:"A,omitempty"'), Z()])
+        add("x_timeslice", "verifS_%s" % K, [Field("A", S(B(k))), Z()])  # x_: thorough tier only
+        add("x_timemap", "verifM_%s" % K, [Field("A", M(B(k))), Z()])
     return types, cat
 
 
@@ -1316,7 +1342,7 @@ def main():
         gn.harness_c11(catn[n])
     emit_c06(gn, [catn[n] for n in ("verifL_NullInt", "verifL_NullBool", "verifL_NullFloat", "verifL_NullString", "verifS_NullInt", "verifM_NullString", "verifP_NullInt")])
     emit_c13(gn, c13_cases_null())
-    src = gn.header(['"unsafe"', '', '"github.com/philpearl/avro"', '"github.com/unravelin/null/v5"']) + COMMON_HELPERS + "\n".join(gn.out)
+    src = gn.header(['"time"', '"unsafe"', '', '"github.com/philpearl/avro"', '"github.com/unravelin/null/v5"']) + COMMON_HELPERS + "\n".join(gn.out)
     src = src.replace("func verifHarness_", "func init() { RegisterCodecs() }\n\nfunc verifHarness_", 1)
     open(os.path.join(OUT, "null", "zz_verif_gen_cat.go"), "w").write(src)
     print("avro types:", len(ta), "null types:", len(tn))
